@@ -81,6 +81,11 @@ func main() {
 		}
 		if b == 0 {
 			b = 40 * time.Second
+			switch *prop {
+			case "C03", "C12":
+				// these two checks consist of several scenario families each; the quick tier gives them a minute
+				b = 60 * time.Second
+			}
 			if *tier == "thorough" {
 				b = 18 * time.Minute
 			}
